@@ -22,6 +22,7 @@ import (
 	"github.com/libp2p/go-libp2p/core/crypto"
 	cpb "github.com/libp2p/go-libp2p/core/crypto/pb"
 	"github.com/libp2p/go-libp2p/core/peer"
+	"github.com/libp2p/go-libp2p/core/record"
 	"github.com/libp2p/go-libp2p/internal/vfh"
 
 	"github.com/decred/dcrd/dcrec/secp256k1/v4"
@@ -66,6 +67,7 @@ type vfC08C struct {
 	cur     any
 	sig     []byte // the signature held (possibly mutated)
 	sigOrig []byte
+	sigs    map[string][]byte
 	rnd     interface{ Intn(int) int }
 	allBits bool
 }
@@ -387,6 +389,11 @@ func vfC08RunC(res *vfh.Result, cnt *vfC08Counters, w vfh.Walk, rsaName string, 
 			if fn == "IDFromPublicKey" || fn == "IDFromPrivateKey" {
 				c.checkIDFunction(c.key(st.Kt, st.Who).pub, out.(peer.ID), fn+":"+st.Kt)
 			}
+		case "decodex":
+			if !c.decodeEdited(op.S("edit"), op.S("from") == "skpb", st) {
+				res.Count(1, si+1)
+				return
+			}
 		case "extract":
 			id := c.cur.(peer.ID)
 			pk, err := id.ExtractPublicKey()
@@ -558,6 +565,168 @@ func vfC08RunC(res *vfh.Result, cnt *vfC08Counters, w vfh.Walk, rsaName string, 
 		st = nx
 	}
 	res.Count(1, len(w.Steps))
+}
+
+// decodeEdited: every concrete variant of one abstract surgery on the serialised key.  A variant the
+// decoder accepts AND whose key Equals the original must behave as the original in every respect the
+// statement names (peer ID, marshalled form, ID matching, signatures, envelopes, peer stores).  One such
+// decoded key becomes the datum the walk continues with.  Returns false when no variant qualifies.
+func (c *vfC08C) decodeEdited(edit string, priv bool, st vfC08CState) bool {
+	ref := c.key(st.Kt, st.Who)
+	refID := vfC08Must(peer.IDFromPublicKey(ref.pub))
+	refPB := vfC08Must(crypto.MarshalPublicKey(ref.pub))
+	ckt := c.concrete(st.Kt)
+	msg := c.msgs["m1"]
+	var next any
+	variants := vfC08KeySurgeries(c.cur.([]byte), priv)[edit]
+	tag := edit + ":" + st.Kt
+	pubBattery := func(k2 crypto.PubKey, how string) {
+		id2, err := peer.IDFromPublicKey(k2)
+		if err != nil || id2 != refID || !refID.MatchesPublicKey(k2) {
+			c.mismatch("id-not-function-of-key:"+st.Kt, fmt.Sprintf("a %s key obtained from %s Equals the original but has peer ID %s instead of %s (err %v)", ckt, how, id2, refID, err), refID.String(), id2.String())
+		} else {
+			for _, txt := range []string{id2.String(), peer.ToCid(id2).String()} {
+				if back, err := peer.Decode(txt); err != nil || back != refID {
+					c.mismatch("roundtrip-not-identity:Decode:"+st.Kt, "text form of the ID of an equal key does not decode to the original's ID", nil, nil)
+				}
+			}
+		}
+		if pb2, err := crypto.MarshalPublicKey(k2); err != nil || !bytes.Equal(pb2, refPB) {
+			c.mismatch("marshal-not-function-of-key:"+st.Kt, fmt.Sprintf("a %s key obtained from %s Equals the original but marshals to other bytes (err %v)", ckt, how, err), fmt.Sprintf("%x", refPB), fmt.Sprintf("%x", pb2))
+		}
+		if r2, err := k2.Raw(); err != nil || !bytes.Equal(r2, vfC08Must(ref.pub.Raw())) || k2.Type() != ref.pub.Type() {
+			c.mismatch("marshal-not-function-of-key:"+st.Kt, "Raw()/Type() of an equal key differ from the original's", nil, nil)
+		}
+	}
+	for vi, v := range variants {
+		c.cnt.inc("C.decodex.variants", 1)
+		how := fmt.Sprintf("%s variant %d of its serialised %s key", edit, vi, map[bool]string{false: "public", true: "private"}[priv])
+		if !priv {
+			k2, err := crypto.UnmarshalPublicKey(v)
+			if err != nil {
+				c.cnt.inc("C.decodex.rejected."+tag, 1)
+				continue
+			}
+			if !vfC08KeyEq(k2, ref.pub) {
+				c.cnt.inc("C.decodex.other-key."+tag, 1)
+				if ok, _ := k2.Verify(msg, c.refSig(st)); ok {
+					c.mismatch("verify-accepts-other-key-or-message:"+st.Kt, "the owner's signature verifies under an unequal key decoded from "+how, false, true)
+				}
+				continue
+			}
+			c.cnt.inc("C.decodex.accepted-equal."+tag, 1)
+			pubBattery(k2, how)
+			if ok, err := k2.Verify(msg, c.refSig(st)); !ok {
+				c.mismatch("verify-rejects-own-signature:"+st.Kt, fmt.Sprintf("the owner's signature does not verify under the equal key decoded from %s: %v", how, err), true, false)
+			}
+			// an envelope sealed by the original whose public_key field carries the edited encoding
+			c.envelopeBattery(st, ref, refID, v, nil, how)
+			if next == nil {
+				next = k2
+			}
+		} else {
+			k2, err := crypto.UnmarshalPrivateKey(v)
+			if err != nil {
+				c.cnt.inc("C.decodex.rejected."+tag, 1)
+				continue
+			}
+			if !(k2.Equals(ref.priv) && ref.priv.Equals(k2)) {
+				c.cnt.inc("C.decodex.other-key."+tag, 1)
+				continue
+			}
+			c.cnt.inc("C.decodex.accepted-equal."+tag, 1)
+			p2 := k2.GetPublic()
+			if !vfC08KeyEq(p2, ref.pub) {
+				c.mismatch("roundtrip-not-identity:GetPublic:"+st.Kt, "GetPublic of an equal private key decoded from "+how+" is not the original public key", nil, nil)
+				continue
+			}
+			pubBattery(p2, "GetPublic of the private key decoded from "+how)
+			if id2, err := peer.IDFromPrivateKey(k2); err != nil || id2 != refID || !refID.MatchesPrivateKey(k2) {
+				c.mismatch("id-not-function-of-key:"+st.Kt, "IDFromPrivateKey of an equal private key decoded from "+how+" differs", refID.String(), id2.String())
+			}
+			if sig, err := k2.Sign(msg); err != nil {
+				c.mismatch("sign-error:"+st.Kt, err.Error(), nil, nil)
+			} else if ok, _ := ref.pub.Verify(msg, sig); !ok {
+				c.mismatch("verify-rejects-own-signature:"+st.Kt, "a signature by the equal private key decoded from "+how+" does not verify under the original public key", true, false)
+			}
+			c.envelopeBattery(st, ref, refID, nil, k2, how)
+			if next == nil {
+				next = k2
+			}
+		}
+	}
+	if next == nil {
+		c.cnt.inc("C.decodex.no-variant-accepted."+tag, 1)
+		return false
+	}
+	c.cur = next
+	return true
+}
+
+// a signature by the reference key over m1, made once per (walk, key)
+func (c *vfC08C) refSig(st vfC08CState) []byte {
+	k := fmt.Sprintf("refsig/%s/%d", st.Kt, st.Who)
+	if s, ok := c.sigs[k]; ok {
+		return s
+	}
+	s := vfC08Must(c.key(st.Kt, st.Who).priv.Sign(c.msgs["m1"]))
+	if c.sigs == nil {
+		c.sigs = map[string][]byte{}
+	}
+	c.sigs[k] = s
+	return s
+}
+
+// envelopeBattery: a signed peer record of the reference peer, (a) sealed by the original key with the
+// envelope's public_key field replaced by an edited-but-equal encoding, or (b) sealed by the
+// edited-but-equal private key, goes through ConsumeEnvelope, ConsumeTypedEnvelope and both address books.
+func (c *vfC08C) envelopeBattery(st vfC08CState, ref vfC08Pair, refID peer.ID, editedPub []byte, priv2 crypto.PrivKey, how string) {
+	rec := &peer.PeerRecord{PeerID: refID, Seq: 7, Addrs: []ma.Multiaddr{ma.StringCast("/ip4/10.9.8.7/tcp/4001")}}
+	signer := ref.priv
+	if priv2 != nil {
+		signer = priv2
+	}
+	var wire []byte
+	ck := fmt.Sprintf("battery|%p|%s", ref.priv, refID)
+	if v, ok := vfC08SealCache.Load(ck); ok && priv2 == nil {
+		wire = v.([]byte)
+	} else {
+		env, err := record.Seal(rec, signer)
+		if err != nil {
+			c.mismatch("sign-error:"+st.Kt, err.Error(), nil, nil)
+			return
+		}
+		wire = vfC08Must(env.Marshal())
+		if priv2 == nil && vfC08IsRSA(ref.priv) {
+			vfC08SealCache.Store(ck, wire)
+		}
+	}
+	e := vfC08Env(wire)
+	var ledger vfC08Ledger
+	ledger.add(ref.pub, peer.PeerRecordEnvelopeDomain, e.PayloadType, e.Payload)
+	if editedPub != nil {
+		fs := vfC08Fields(wire)
+		for i := range fs {
+			if fs[i].num == 1 {
+				fs[i] = vfC08BytesField(1, editedPub)
+			}
+		}
+		wire = vfC08Join(fs)
+	}
+	for _, kind := range []string{"untyped", "typed", "pmem", "pds"} {
+		a := vfC08Consume(kind, wire, peer.PeerRecordEnvelopeDomain)
+		c.cnt.inc("C.decodex.envelope."+kind, 1)
+		if cls, what := vfC08Monitor(&ledger, a); cls != "" {
+			c.mismatch(cls, what+" ["+how+"]", nil, vfC08Artefact(&ledger, a, wire))
+		}
+		if !a.ok {
+			cls := "envelope-with-equal-key-rejected:" + kind
+			if (kind == "pmem" || kind == "pds") && !a.storeSkip {
+				cls = "peerstore-rejects-record-of-equal-key:" + kind
+			}
+			c.mismatch(cls, fmt.Sprintf("%s refused the signed peer record of %s whose key comes from %s: %v", kind, refID, how, a.err), "accept", vfC08Artefact(&ledger, a, wire))
+		}
+	}
 }
 
 // every single-bit mutation / truncation of a serialised form: it decodes to an error, to the same
